@@ -1,10 +1,10 @@
-\* the code as it is, non-canonical origins: SizeExact (and NoRefusal through JSON) must be REFUTED
+\* named deviation EncodeMarksObject (the code before its repair): must be refuted by the abstract invariants
 SPECIFICATION Spec
 CONSTANTS
   Kinds = {"tx", "block", "header", "stateroot", "extensible", "consensus", "notaryreq", "aer", "nef", "manifest", "contract", "mptnode", "rule", "signer", "item"}
   K = 3
-  Dev = {}
-  Quirks = {"SizeOfReceived"}
+  Dev = {"EncodeMarksObject"}
+  Quirks = {}
   Origins = {"canon", "nc-signed", "nc-unsigned"}
   Mode = "mc"
 INVARIANTS PathIndependent SizeExact NoRefusal Confluent
